@@ -352,10 +352,10 @@ class UbxServerBase_(object):
                         return frame
                     except KeyError:
                         # We can't parse the frame, is it registered()
-                        logger.warning(f'frame not registered, cannot decode: {binascii.hexlify(data)}')
+                        logger.warning(f'frame not registered, cannot decode: {binascii.hexlify(data)!r}')
                     except (ValueError, struct.error, AssertionError):
                         # Frame has valid checksum but payload does not fit the frame type
-                        logger.warning(f'cannot decode frame {cid}: {binascii.hexlify(data)}')
+                        logger.warning(f'cannot decode frame {cid}: {binascii.hexlify(data)!r}')
                 else:
                     logger.warning("checksum error in frame, discarding")
 
